@@ -23,7 +23,12 @@ func (c Clause) FullLabel() string {
 	if c.Prop == "" {
 		return c.Label
 	}
-	return c.Prop + "." + c.Label
+	// a clause serving several properties is named after the first
+	p := c.Prop
+	if i := strings.Index(p, "+"); i >= 0 {
+		p = p[:i]
+	}
+	return p + "." + c.Label
 }
 
 type GhostDecl struct {
@@ -115,7 +120,7 @@ type Contracts struct {
 	NLines    int
 }
 
-var clauseLabelRE = regexp.MustCompile(`^\s*(?:(C[0-9]{2,3})\.)?([A-Za-z_][A-Za-z0-9_\.\(\)\->]*)\s*:\s*(.*)$`)
+var clauseLabelRE = regexp.MustCompile(`^\s*(?:(C[0-9]{2,3}(?:\+C[0-9]{2,3})*)\.)?([A-Za-z_][A-Za-z0-9_\.\(\)\->]*)\s*:\s*(.*)$`)
 
 func parseClause(text string, line int) (Clause, error) {
 	c := Clause{Line: line}
